@@ -668,6 +668,11 @@ class Prefix:
             raise ValueError(f"A prefix with symbol {symbol} is already defined")
 
         if self._initialized:
+            if name and self.name and self.name != name:
+                raise ValueError(f"{self} is already named {self.name}")
+            if symbol and self.symbol and self.symbol != symbol:
+                raise ValueError(f"{self} already has the symbol {self.symbol}")
+
             # the same prefix may have been produced anonymously by arithmetic before
             # it is declared with a name and symbol
             if name and not self.name:
